@@ -74,6 +74,12 @@ func p2Cases(id, tier string, seed int64, n int) []core.Case {
 				// refuses or must still count every intact block
 				kind = "corrupt-volume"
 			}
+			if id == "C03" && i%40 == 31 {
+				// the index file ends exactly at a packet boundary (some packets are
+				// missing, the rest are whole), no recovery file is left, and one
+				// protected file is damaged: Verify refuses or sees the damage
+				kind = "index-cut"
+			}
 			if id == "C03" && i%40 == 21 {
 				// a recovery file that starts with packets of another recovery
 				// set (two downloads concatenated): every block of ours still counts
@@ -295,6 +301,15 @@ func buildP2Scenario(r *core.R, p p2ScenParams) *p2Scenario {
 	for _, op := range sc.ops {
 		st.Apply(op)
 	}
+	if p.Kind == "index-cut" {
+		// every file carries some damage, so whichever file's packets the cut
+		// removes, a damaged file is affected
+		for a := range st.Cur {
+			if st.Cur[a].Present && st.Len(a) > 0 && st.Identical(a) {
+				st.Apply(scen.Op{Kind: "overwrite", A: a, Pos: rng.Intn(st.Len(a)), G: []byte{byte(0x80 + rng.Intn(100))}})
+			}
+		}
+	}
 	env.sync()
 	// lose recovery files
 	vols := env.volumeFiles()
@@ -351,6 +366,18 @@ func buildP2Scenario(r *core.R, p p2ScenParams) *p2Scenario {
 				b[rng.Intn(len(b))] ^= 1 << uint(rng.Intn(8))
 				os.WriteFile(v, b, 0644)
 				sc.corruptVolume = filepath.Base(v)
+			}
+		}
+	case p.Kind == "index-cut":
+		for _, v := range vols {
+			os.Remove(v)
+			sc.volsLost++
+		}
+		if b, err := os.ReadFile(env.idx); err == nil {
+			if pk, err := par2rw.ParseStrict(b); err == nil && len(pk) > 2 {
+				cut := pk[1+rng.Intn(len(pk)-1)].Offset
+				os.WriteFile(env.idx, b[:cut], 0644)
+				sc.corruptVolume = fmt.Sprintf("index cut at %d of %d", cut, len(b))
 			}
 		}
 	case p.Kind == "mixed-volume":
@@ -674,6 +701,23 @@ func (c *c03) Run(cs core.Case) core.Result {
 	}
 	if sc.corruptVolume != "" {
 		r.Count("verify_result_with_corrupt_volume", 1)
+	}
+	// Pointed at one of the recovery files instead of the index file, Verify
+	// refuses or gives the same truthful counts.
+	if vf := env.volumeFiles(); len(vf) > 0 && p.Seed%4 == 0 && sc.corruptVolume == "" {
+		var vres par2.VerifyResult
+		var verr2 error
+		v := vf[int(p.Seed>>3)%len(vf)]
+		if pi := core.Protect(func() { vres, verr2 = par2.Verify(v, par2.VerifyOptions{NumGoroutines: sc.g}) }); pi != nil {
+			r.Violate(core.CrashSig("par2.Verify", pi.Frame, pi.Msg), "Verify(%s) panicked: %s", filepath.Base(v), pi.Msg)
+		} else if verr2 == nil {
+			r.Count("verify_via_volume_file_answered", 1)
+			if vres.ShardCounts.UsableParityShardCount != len(sc.exps) {
+				r.Violate("usable-recovery-blocks-wrong", "Verify(%q) - a recovery file given as the entry point - counts %d usable recovery blocks, %d distinct intact blocks are stored beside it; %v", filepath.Base(v), vres.ShardCounts.UsableParityShardCount, len(sc.exps), sc.describe())
+			}
+		} else {
+			r.Count("verify_via_volume_file_refused", 1)
+		}
 	}
 	sh := res.ShardCounts
 	desc := func() string { return fmt.Sprintf("counts=%+v; %v", sh, sc.describe()) }
